@@ -17,6 +17,7 @@ writer and the readers of the regexp bytecode (DESIGN.md §4 C01–C03):
        _yr_atoms_extract_from_re's traversal.
 """
 from .. import cfgutil as cu
+from .. import paths
 from .C14 import canon
 
 LEVEL = 'other'
@@ -778,6 +779,256 @@ def r3_8(ctx):
     ctx.count('nocase_branches', n)
 
 
+def r3_9(ctx):
+    """the code reference _yr_re_emit hands back for a node (and records as the node's
+    forward code) is the node's first instruction: on every path through the case of a
+    node kind, the first emitting call - an emit helper or the recursive call - receives the
+    address of the reference that is returned, and no later one does.  An enclosing `+` or
+    `*` jumps back to that reference; if it designates the second instruction, every
+    iteration after the first starts inside the node."""
+    prog = ctx.prog
+    f = prog.fn('_yr_re_emit', 'libyara/re.c')
+    if f is None:
+        ctx.require(ctx.fixture, '_yr_re_emit not found')
+        return
+    # the returned reference: `*code_ref = R`
+    R = None
+    outp = [p_['name'] for p_ in f.params if 'YR_ARENA_REF' in p_.get('type', '') and '*' in p_.get('type', '')]
+    for n in f.all_nodes():
+        if n['k'] == 'bin' and n['op'] == '=':
+            l = cu.strip_casts(f, f.kid(n, 0))
+            r = cu.strip_casts(f, f.kid(n, 1))
+            if l is not None and l['k'] == 'un' and l['op'] == '*' and r is not None and r['k'] == 'ref':
+                b = cu.strip_casts(f, f.kid(l, 0))
+                if b is not None and b['k'] == 'ref' and b['name'] in outp:
+                    R = r['name']
+    ctx.require(R is not None or ctx.fixture, '_yr_re_emit: the reference handed back is not identified')
+    if R is None:
+        return
+    # emitters and the position of their instruction-reference parameter
+    emitters = {}
+    for g in f.tu.fn_list:
+        if g.name.startswith('_yr_emit_') or g.name == f.name:
+            idx = [i for i, p_ in enumerate(g.params)
+                   if 'YR_ARENA_REF' in p_.get('type', '') and '*' in p_.get('type', '')]
+            if idx:
+                emitters[g.name] = idx[0]
+    ct = paths.CondTracker(f)
+
+    def truth(e, facts, depth=0):
+        e = cu.strip_casts(f, e)
+        if e is None or depth > 6:
+            return None
+        if e['k'] == 'ref':
+            for x in facts:
+                if isinstance(x, tuple) and len(x) == 3 and x[1] == e['name']:
+                    if x[0] == 'ne' and x[2] == 0:
+                        return True
+                    if x[0] == 'eq' and x[2] == 0:
+                        return False
+                    if x[0] == 'eq' and x[2] != 0:
+                        return True
+            return None
+        if e['k'] == 'un' and e['op'] == '!':
+            t = truth(f.kid(e, 0), facts, depth + 1)
+            return None if t is None else not t
+        if e['k'] == 'bin' and e['op'] in ('||', '&&'):
+            a, b = truth(f.kid(e, 0), facts, depth + 1), truth(f.kid(e, 1), facts, depth + 1)
+            if e['op'] == '||':
+                if a is True or b is True:
+                    return True
+                return False if a is False and b is False else None
+            if a is False or b is False:
+                return False
+            return True if a is True and b is True else None
+        return None
+
+    def which(arg, facts, depth=0):
+        a = cu.strip_casts(f, arg)
+        if a is None or depth > 4:
+            return 'unknown'
+        if cu.const_of(a) == 0:
+            return 'NULL'
+        if a['k'] == 'un' and a['op'] == '&':
+            v = cu.strip_casts(f, f.kid(a, 0))
+            return 'R' if v is not None and v['k'] == 'ref' and v['name'] == R else 'other'
+        if a['k'] == 'cond':
+            t = truth(f.kid(a, 0), facts)
+            x, y = which(f.kid(a, 1), facts, depth + 1), which(f.kid(a, 2), facts, depth + 1)
+            if t is True:
+                return x
+            if t is False:
+                return y
+            return x if x == y else 'unknown'
+        if a['k'] == 'ref' and a['name'] in outp:
+            return 'other'          # the caller's own reference, not the local one
+        return 'unknown'
+    bad = {}
+    seen_cases = set()
+
+    def case_of(n):
+        for a in f.ancestors(n):
+            if a['k'] == 'case' and a.get('mn', '').startswith('RE_NODE_'):
+                return a['mn']
+        # statements of a group are siblings of the label, not its descendants
+        par = f.parent(n)
+        node = n
+        while par is not None and par['k'] != 'switch':
+            node, par = par, f.parent(par)
+        return None
+
+    groups = []
+    for sw in cu.find_switches(f):
+        c = cu.switch_cond(f, sw)
+        if c is None or not canon(f, c).endswith('->type'):
+            continue
+        for labels, stmts in cu.switch_groups(f, sw):
+            names = [l.get('mn') for l in labels if l['k'] == 'case' and l.get('mn', '').startswith('RE_NODE_')]
+            ids = set(x['i'] for st in stmts for x in f.walk(st))
+            if names:
+                groups.append((names, ids))
+
+    def group_of(n):
+        for names, ids in groups:
+            if n['i'] in ids:
+                return '/'.join(names)
+        return None
+
+    def step(n, facts):
+        facts = ct.on_step(n, facts)
+        if n['k'] == 'call' and n.get('callee') in emitters:
+            g = group_of(n)
+            if g is None:
+                return facts
+            seen_cases.add(g)
+            args = f.call_args(n)
+            w = which(args[emitters[n['callee']]], facts) if emitters[n['callee']] < len(args) else 'unknown'
+            first = 'emitted' not in facts
+            if first and w != 'R':
+                bad.setdefault(g, (n, 'the first instruction of the node is emitted here with %s instead of &%s' % (
+                    {'NULL': 'no reference', 'other': 'another reference', 'unknown': 'a reference that is not known to be &' + R}[w], R)))
+            if not first and w == 'R':
+                bad.setdefault(g, (n, '&%s is handed to a later emission: the reference is overwritten with the '
+                                      'address of an instruction that is not the node\'s first' % R))
+            return frozenset(facts) | {'emitted'}
+        if n['k'] == 'ret':
+            return None
+        return facts
+
+    def edge(b, term, cond, idx, succ, facts):
+        return ct.on_edge(term, cond, idx, facts)
+    try:
+        paths.explore(f, set(), step, edge, max_states=60000)
+    except paths.Budget:
+        ctx.require(False, 'R3.9: state budget exceeded in _yr_re_emit')
+    for g in sorted(seen_cases):
+        ok = g not in bad
+        ctx.ob('R3.9', '_yr_re_emit:%s:code-reference-is-first-instruction' % g, ok,
+               f.loc(bad[g][0]) if not ok else '%s:%s' % (f.file, f.line),
+               'on every path the first emission receives &%s and no later one does' % R if ok else
+               '%s: an enclosing repetition that jumps back to this node re-enters it past its '
+               'first instruction' % bad[g][1])
+
+
+def r3_10(ctx):
+    """a part of a regular expression is taken out of the AST and replaced by a byte-count
+    gap between two chained strings only if counting bytes is what the VM would have done:
+    the opcodes emitted for `.` and `.{n,m}` consult RE_FLAGS_DOT_ALL at run time (a
+    newline kills the fiber without it), the gap check of chained strings does not look at
+    the bytes at all, so the splitter may remove such a node only under a test of that
+    flag.  Hex strings always carry the flag; a regular expression carries it with /s."""
+    prog = ctx.prog
+    vm = prog.fn('yr_re_exec', 'libyara/re.c')
+    em = prog.fn('_yr_re_emit', 'libyara/re.c')
+    if vm is None or em is None:
+        ctx.require(ctx.fixture, 'yr_re_exec / _yr_re_emit not found')
+        return
+    dot_all = prog.macro_value('RE_FLAGS_DOT_ALL')
+    ctx.require(dot_all is not None, 'RE_FLAGS_DOT_ALL not evaluable')
+    sensitive = set()
+    for sw in cu.find_switches(vm):
+        for labels, stmts in cu.switch_groups(vm, sw):
+            names = [l.get('mn') for l in labels if l['k'] == 'case' and l.get('mn', '').startswith('RE_OPCODE_')]
+            if names and any(x['k'] == 'bin' and x['op'] == '&' and
+                             cu.const_of(cu.strip_casts(vm, vm.kid(x, 1))) == dot_all
+                             for st in stmts for x in vm.walk(st)):
+                sensitive |= set(names)
+    ctx.require(sensitive or ctx.fixture, 'no opcode handler of yr_re_exec consults RE_FLAGS_DOT_ALL')
+    kinds = set()
+    for sw in cu.find_switches(em):
+        c = cu.switch_cond(em, sw)
+        if c is None or not canon(em, c).endswith('->type'):
+            continue
+        for labels, stmts in cu.switch_groups(em, sw):
+            names = [l.get('mn') for l in labels if l['k'] == 'case' and l.get('mn', '').startswith('RE_NODE_')]
+            for st in stmts:
+                for x in em.walk(st):
+                    if x['k'] == 'call' and (x.get('callee') or '').startswith('_yr_emit_'):
+                        a = em.call_args(x)
+                        if len(a) > 1 and any(o in sensitive for o in _opcodes_of(em, a[1])):
+                            kinds |= set(names)
+    ctx.require(kinds or ctx.fixture, 'no node kind emits a DOT_ALL-sensitive opcode')
+    n = 0
+
+    def tests_kind(g):
+        return sorted(set(y['mn'] for x in g.all_nodes() if x['k'] == 'bin' and x['op'] in ('==', '!=') and
+                          any(z['k'] == 'member' and z['fld'] == 'type' for z in g.walk(x))
+                          for y in g.walk(x) if (y.get('mn') or '') in kinds))
+    for f in prog.fns():
+        if f.file != 'libyara/re.c' and not ctx.fixture:
+            continue
+        if f is em or f is vm or 'destroy' in f.name:
+            continue
+        # a node held in a local is destroyed here: it is being taken out of the AST
+        cuts = []
+        for c in f.calls():
+            if c.get('callee') != 'yr_re_node_destroy':
+                continue
+            a0 = cu.strip_casts(f, f.call_args(c)[0]) if f.call_args(c) else None
+            if a0 is not None and a0['k'] == 'ref' and a0.get('dk') == 'local':
+                cuts.append(c)
+        if not cuts:
+            continue
+        tk = tests_kind(f)
+        for c in f.calls():
+            h = f.tu.functions.get(c.get('callee') or '')
+            if h is not None and h is not f and getattr(h, 'static', False):
+                tk = sorted(set(tk) | set(tests_kind(h)))
+        if not tk:
+            continue
+        at = {}
+
+        def step(x, facts):
+            return facts
+
+        def edge(b_, term, cond, idx, succ, facts):
+            pol = paths.branch_polarity(f, term, idx)
+            if pol is None or cond is None:
+                return facts
+            c_, p2 = paths.normalise_cond(f, cond, pol)
+            if c_ is not None and p2 and any(
+                    x['k'] == 'bin' and x['op'] == '&' and cu.const_of(cu.strip_casts(f, f.kid(x, 1))) == dot_all
+                    for x in f.walk(c_)) and c_['k'] == 'bin' and c_['op'] == '&':
+                return frozenset(facts) | {'dotall'}
+            return facts
+
+        def observe(x, facts):
+            for c in cuts:
+                if x is c:
+                    at[c['i']] = 'dotall' in facts
+        paths.must_flow(f, set(), step, edge, observe)
+        for k_, c in enumerate(sorted(cuts, key=lambda x: (x.get('l', 0), x['i']))):
+            n += 1
+            ok = at.get(c['i'], False)
+            ctx.ob('R3.10', '%s:removes-%s#%d:only-under-DOT_ALL' % (f.name, '/'.join(tk), k_), ok, f.loc(c),
+                   'the node is replaced by a gap only when `.` matches every byte' if ok else
+                   'a `.{n,m}` node is cut out of the expression and replaced by a byte-count gap on a '
+                   'path on which RE_FLAGS_DOT_ALL was not found set: the VM would stop at a newline, the '
+                   'gap does not (/abc.{0,300}?def/ matches across a line break although '
+                   '/abc.{0,30}?def/ does not)')
+    return n
+
+
 def run(ctx):
     r3_1(ctx)
     ctx.floor('R3.1', 60)
@@ -795,3 +1046,7 @@ def run(ctx):
     ctx.floor('R3.7', 1)
     r3_8(ctx)
     ctx.floor('R3.8', 1)
+    r3_9(ctx)
+    ctx.floor('R3.9', 10)
+    r3_10(ctx)
+    ctx.floor('R3.10', 1)
